@@ -12,7 +12,7 @@ fn verif_native_lexer_total() {
     let name = "verif_native_lexer_total";
     init_features();
     let alpha = ['x', '0', 'r', '7', '#', '-', '.', '"', '\\', ';', ' ', '\n', 'a', 'é', '🍋', ':', 'f'];
-    let inputs = verif_strings(&alpha, 4);
+    let inputs = verif_strings(&alpha, if verif_deep() { 5 } else { 4 });
     let mut evaluated = 0u64;
     let mut kinds = std::collections::HashSet::new();
     for s in &inputs {
